@@ -5,7 +5,13 @@
 void h_dpivotL(void)
 {
     int jcol;
+#if defined(PLV_U1)
+    /* variant PLV_U1: the contract requires u == 1.0; 1.0 has exactly one bit pattern, so passing the literal is the same
+     * input set - it only lets the tool fold the constant operand of thresh = u * pivmax before bit-blasting */
+    double u = 1.0;
+#else
     double u;
+#endif
     int *usepr, *perm_r, *iperm_r, *iperm_c, *pivrow;
     GlobalLU_t *Glu;
     SuperLUStat_t *stat;
